@@ -12,15 +12,16 @@ import (
 )
 
 type HeldCfg struct {
-	N        int      `json:"n"`       // requests sent before holding
-	M        int      `json:"m"`       // requests sent while the held ones are blocked
-	HMax     int      `json:"hmax"`    // largest held subset
-	Groups   bool     `json:"groups"`  // use shared tags (tag groups) for some requests
-	Close    bool     `json:"close"`   // disconnect while the held requests are blocked
-	Partial  bool     `json:"partial"` // send a partial frame just before disconnecting
-	Kinds    []string `json:"kinds"`
-	MaxCases int      `json:"maxcases"`
-	PermMax  int      `json:"permmax"` // all release orders for held sets up to this size
+	N             int      `json:"n"`       // requests sent before holding
+	M             int      `json:"m"`       // requests sent while the held ones are blocked
+	HMax          int      `json:"hmax"`    // largest held subset
+	Groups        bool     `json:"groups"`  // use shared tags (tag groups) for some requests
+	Close         bool     `json:"close"`   // disconnect while the held requests are blocked
+	Partial       bool     `json:"partial"` // send a partial frame just before disconnecting
+	Kinds         []string `json:"kinds"`
+	MaxCases      int      `json:"maxcases"`
+	PermMax       int      `json:"permmax"` // all release orders for held sets up to this size
+	CloseVariants bool     `json:"closevariants"`
 }
 
 func subsets(n, kmax int) [][]int {
@@ -148,6 +149,9 @@ func TestHeld(t *testing.T) {
 		out.Begin(id)
 		rng := rand.New(rand.NewSource(seed*104729 + int64(ci)))
 		k, left := RunCase(t, lg, cfg, seed*31+int64(ci), func(k *Case) {
+			if hc.CloseVariants {
+				k.CloseBy = []string{"", "oversize", "badframe"}[rng.Intn(3)]
+			}
 			held := map[int]bool{}
 			for _, h := range pl.held {
 				held[h] = true
